@@ -34,6 +34,9 @@ pub fn check_pair(rep: &mut Rep, w: &World, ca: i128, sa: TimeScale, cb: i128, s
         }
     }
     let want = if sa == sb { ca.cmp(&cb) } else { ta.cmp(&tb) };
+    if !is_dyn(sa) && !is_dyn(sb) {
+        rep.log_event("ecmp", || format!("\"a\":\"{}\",\"sa\":\"{:?}\",\"b\":\"{}\",\"sb\":\"{:?}\",\"want\":{}", ca, sa, cb, sb, want as i32));
+    }
     let mut nt = false;
     if sa != sb {
         rep.class("pair/cross-scale");
